@@ -291,7 +291,11 @@ fn evaluate(confs: &[Conf], b: &BuildOut, stats: &mut EvalStats, only: Option<&(
 fn run(a: &vhcore::Args) -> i32 {
     let mut rep = vhcore::Reporter::from_args(a, "exploration");
     let thorough = a.tier == vhcore::Tier::Thorough;
-    let n = if thorough { 3 } else { 2 };
+    // C13_MAXLEN overrides the sequence length bound (4 = 168 421 scripts, ≈7 min on an idle 16-core box)
+    let n = std::env::var("C13_MAXLEN")
+        .ok()
+        .and_then(|s| s.parse().ok())
+        .unwrap_or(if thorough { 3 } else { 2 });
     let mut seqs = sequences(n);
     let closed: usize = (0..=n).map(|k| 20usize.pow(k as u32)).sum();
     if seqs.len() != closed {
